@@ -25,6 +25,21 @@ CHECKS = {
  "C08": dict(technique="explicit-state BFS over histories of public queries on the real DecFileParser (every returned value destructively mutated, re-parse with either switch), each history in a forked pristine process, state hashing on the full query snapshot + hidden tree fingerprint; plus complete enumeration of CopyDecay scenarios against the reference semantics",
              text="All histories of length <=2 (3 on the smallest files in thorough) over ~40 query/mutation operations on generated files and fixtures are executed; after the last step every answer must equal that of a freshly parsed instance and no two decay tables may share a tree node, child list or token object. The CopyDecay clause is checked on the complete product of its scenario dimensions.",
              note="History length bound; six input files; the no-sharing invariant reads the private _parsed_decays list.", ref="3/C08"),
+ "C09": dict(technique="complete enumeration of acyclic decay-table sets over an ordered universe (M>X>Y(>Z), <=3 daughters, 1..2 lines, absent/empty/filled sub-tables, spines to 8 lines / 7 daughters / depth 4) x every subset of the involved names as stable set; reference = recursive unfolding of the AST",
+             text="For every enumerated table set and every stable set the chain built by the real parser (packed 50 scenarios per file and unpacked) is compared, typed, with the reference unfolding; particles without a table must raise DecayNotFound. Thorough adds every mother of both shipped master files whose unfolding stays below 20000 nodes.",
+             note="Acyclic table sets only; sizes as stated.", ref="3/C09"),
+ "C10": dict(technique="complete enumeration of decay-table sets (as C09, 0..4 lines per particle, >=3 decaying daughters, 6 alias variants) ; oracle = multiset of nested structures read back from the descriptors by an independent bracket-matching reader vs. the reference path enumeration, and the big-integer path count",
+             text="expand_decay_modes of the real parser is compared with every choice function of the reference on every enumerated table set; multisets (not sets) of nested structures are compared so duplicates and omissions both show. Thorough adds all master-file mothers with <=50000 paths.",
+             note="Acyclic table sets; labels that start with an opening bracket are outside the space.", ref="3/C10"),
+ "C11": dict(technique="complete enumeration: all final states of <=4 names in every order and constructor form, 420 decay modes x metadata kinds, all 806 EvtGen PDG IDs, all 35420 single chains with <=4 decaying particles (every mapping order for <=3) over real and arbitrary names, all single-line parser chains; oracle = reference to_dict built position by position + round trips",
+             text="Every enumerated object is built through the real classes; to_dict must equal the independently built dictionary (every occurrence of a decaying particle expanded), from_dict(to_dict) must reproduce mother, sub-decays, bf, daughter multisets and metadata, and parser chains must survive the class form up to daughter order.",
+             note="Chains with unreachable sub-decays, model_params=None and metadata keys colliding with constructor parameters are outside the space.", ref="3/C11"),
+ "C12": dict(technique="complete enumeration of single chains (<=4 decaying particles complete; <=6 with branching <=2 in thorough) x every stable subset x mapping orders; exact arithmetic oracle (distinct prime reciprocals as Fractions, dyadic floats) so the exponent of each prime is the number of times a decay was counted",
+             text="flatten() of the real DecayChain is compared with the reference leaf multiset and exact product for every chain, stable set and mapping order; metadata of the result, immutability of the original and visible_bf are checked as well.",
+             note="Quick: all permutations of the mapping for <=3 decaying particles, identity/reverse/rotations for 4.", ref="3/C12"),
+ "C13": dict(technique="complete enumeration of single chains (as C11) x 3 name sets (parentheses, primes, signs) x 6 bracketing patterns x all input orders; oracle = independent bracket-matching reader recovering the nested multiset",
+             text="Every rendered descriptor is read back by a reader that does not share code with the library and must give exactly the tree the chain was built from, for the default and user patterns (top pattern at the top, sub pattern at every nested level), and one string for every input order.",
+             note="Names with unbalanced brackets of the pattern in use are outside the space.", ref="3/C13"),
  "C14": dict(technique="explicit-state BFS over call histories of the real DescriptorFormat (state hashing on config + hidden per-object state) against a stack reference model; second driver through real with-blocks",
              text="Every history of create/enter/leave/leave-by-exception/set/invalid-set operations up to the stated length (all histories up to the forced depth, state-hashed beyond) is executed on the real class and compared after every step with a stack model of the format in force; bounded exhaustive, no sampling.",
              note="Bounded by history length and at most 3 context objects; two valid and eight invalid pattern pairs.", ref="3/C14"),
